@@ -359,8 +359,12 @@ pub fn check_format(text: &str, intended: Option<&Idl>, ws: &[usize]) -> Result<
         }
     }
     let mut layouts = HashSet::new();
-    let disp = fmt_guard("to_string", 80, std::panic::AssertUnwindSafe(|| a.to_string()))?;
+    // the renderings are independent of each other and of what the thread rendered before: for every
+    // other definition the colored rendering of a width is taken before the plain one, and Display last
+    let colored_first = hash64(&text) % 2 == 0;
+    let disp_first = if colored_first { None } else { Some(fmt_guard("to_string", 80, std::panic::AssertUnwindSafe(|| a.to_string()))?) };
     for &w in ws {
+        let c_early = if colored_first { Some(fmt_guard("get_multiline_colored", w, std::panic::AssertUnwindSafe(|| a.get_multiline_colored(0, w)))?) } else { None };
         let t1 = fmt_guard("get_multiline", w, std::panic::AssertUnwindSafe(|| a.get_multiline(0, w)))?;
         layouts.insert(hash64(&t1));
         let b = match IDL::try_from(t1.as_str()) {
@@ -397,7 +401,10 @@ pub fn check_format(text: &str, intended: Option<&Idl>, ws: &[usize]) -> Result<
                 format!("width {}: formatting the formatted text changes it: {:?} -> {:?}", w, t1, t2),
             ));
         }
-        let c = fmt_guard("get_multiline_colored", w, std::panic::AssertUnwindSafe(|| a.get_multiline_colored(0, w)))?;
+        let c = match c_early {
+            Some(c) => c,
+            None => fmt_guard("get_multiline_colored", w, std::panic::AssertUnwindSafe(|| a.get_multiline_colored(0, w)))?,
+        };
         let stripped = strip_ansi(&c);
         if stripped != t1 {
             let at = stripped.chars().zip(t1.chars()).position(|(x, y)| x != y).unwrap_or(stripped.len().min(t1.len()));
@@ -409,6 +416,11 @@ pub fn check_format(text: &str, intended: Option<&Idl>, ws: &[usize]) -> Result<
         if c == t1 {
             return Err(Fail::new("format/colored-has-no-color", format!("width {}: colored rendering contains no escape sequence", w)));
         }
+        let disp = match &disp_first {
+            Some(d) => d.clone(),
+            None if w == 80 => fmt_guard("to_string", 80, std::panic::AssertUnwindSafe(|| a.to_string()))?,
+            None => String::new(),
+        };
         if w == 80 && disp != t1 {
             return Err(Fail::new("format/display-differs", "Display differs from get_multiline(0, 80)".to_string()));
         }
